@@ -52,6 +52,13 @@ func gOptStr(s *string) string {
 	return "(Some " + gStr(*s) + ")"
 }
 
+func gOptBool(b *bool) string {
+	if b == nil {
+		return "None"
+	}
+	return "(Some " + gal.Bool(*b) + ")"
+}
+
 func gOptZ(s *string) string {
 	if s == nil {
 		return "None"
@@ -140,7 +147,7 @@ func gDoc(d docOut) string {
 		return "(" + gStr(n.Ty) + ", None)"
 	})
 	return "{| do_codec := " + codec + "; do_from := " + gFrom(d.From) + "; do_called := " + gal.Bool(d.Called) + "; do_null := " + gal.Bool(d.Null) +
-		"; do_str := " + gOptStr(d.Str) + "; do_u64 := " + gOptZ(d.U64) + "; do_i64 := " + gOptZ(d.I64) +
+		"; do_str := " + gOptStr(d.Str) + "; do_u64 := " + gOptZ(d.U64) + "; do_i64 := " + gOptZ(d.I64) + "; do_bool := " + gOptBool(d.Bool) +
 		"; do_native := " + nat + "; do_res := " + gRes(d.Res) + " |}"
 }
 
